@@ -343,7 +343,7 @@ IndexFlush ==
 
 ClearCache ==
   /\ open /\ cache # {}
-  /\ cache' = IF "stale_cache" \in Dev THEN cache ELSE {}
+  /\ cache' = {}
   /\ UNCHANGED <<open, key2id, id2key, tag2ids, pending, nextId, nReopen>>
   /\ Log("ClearCache", <<>>, <<>>)
 
